@@ -64,15 +64,17 @@ Record svariant := mk_sv {
   sv_av_guard : bool;    (* audio / video from a session that is not a publisher: error before the observer is called *)
   sv_uc_guard : bool;    (* doUserControl checks the body length before reading *)
   sv_role_guard : bool;  (* publish / play are refused once the session has a role *)
+  sv_connect_guard : bool;   (* connect is refused once the session has a role (C20's repair: it rewrote appName / tcUrl
+                                under readers in other goroutines) *)
   sv_rv : rvariant;      (* the chunk composer; rv_grow_received = buffers grow with the bytes that arrive *)
   sv_fx : MediaMsgChecked.fixes   (* the payload helpers of base/t_rtmp.go the trace logging of RunLoop calls (C05) *)
 }.
-Definition sv_fixed := mk_sv true true true rv_fixed MediaMsgChecked.fixes_all.
+Definition sv_fixed := mk_sv true true true true rv_fixed MediaMsgChecked.fixes_all.
 (* the repaired tree but for the composer's memory rule: the declared message length is reserved when the
    header arrives, the chunk body is read in one piece, the length check comes after the read *)
-Definition sv_premem := mk_sv true true true (mk_rv true true true) MediaMsgChecked.fixes_all.
+Definition sv_premem := mk_sv true true true true (mk_rv true true true) MediaMsgChecked.fixes_all.
 (* the tree before the C04 repairs (after the C08 ones) *)
-Definition sv_pinned := mk_sv false false false (mk_rv true true true) MediaMsgChecked.fixes_pinned.
+Definition sv_pinned := mk_sv false false false false (mk_rv true true true) MediaMsgChecked.fixes_pinned.
 
 (* ------------------------------------------------------------------------ *)
 (* errors a session closes with (the composer's 1..6 are the err_ constants of RtmpComposer) *)
@@ -402,6 +404,10 @@ Definition mod_conn_props : M unit :=
     end.
 
 Definition do_connect (tid : Z) (b : bytes) : M unit :=
+  st0 <- mget ;;
+  _ <- (if sv_connect_guard v
+        then match ss_role st0 with RUnknown => mret tt | _ => mfail e_unexpected_msg end
+        else mret tt) ;;
   '(opa, _, _) <- mamf (read_object cfg_fixed b) ;;
   match find_string k_app opa with
   | None => st <- mget ;; _ <- mput (set_connect st [] (ss_tcurl st)) ;; mfail e_amf_not_exist
@@ -718,7 +724,8 @@ End Session.
 
 (* ------------------------------------------------------------------------ *)
 (* What the upper layer may see from one connection (executable specification,
-   independent of the handlers): any number of connect notifications; at most
+   independent of the handlers): any number of connect notifications, all before the
+   session gets a role; at most
    one new-session call; media only after an accepted publish; the end of the
    session is reported exactly once and exactly when a new-session call was
    accepted before; nothing after the end or after a refusal. *)
@@ -730,10 +737,8 @@ Definition astep (s : astate) (e : event) : option astate :=
   | A0, EvNewPub _ _ _ _ _ false => Some ARej
   | A0, EvNewSub _ _ _ _ _ true => Some ASub
   | A0, EvNewSub _ _ _ _ _ false => Some ARej
-  | APub, EvConnect _ _ => Some APub
   | APub, EvAv _ => Some APub
   | APub, EvDelPub => Some ADone
-  | ASub, EvConnect _ _ => Some ASub
   | ASub, EvDelSub => Some ADone
   | _, _ => None
   end.
